@@ -53,9 +53,12 @@ def build_harness(asan=False):
     return os.path.join(HARNESS, "target", "release", "cactus-harness")
 
 
+HARNESS_ENV = {}
+
+
 def harness(binpath, args, timeout=600):
     """Runs the harness; a crash of the process (abort, signal) is data, not a tool error."""
-    rc, out, dt = sh([binpath] + args, timeout)
+    rc, out, dt = sh([binpath] + args, timeout, env=HARNESS_ENV)
     return rc, out, dt
 
 
@@ -76,8 +79,9 @@ SPEC_FILES = ["CactusRef.tla", "MC.tla"]
 
 def mc_cfg(nobj, ops, caps, variant, menu, invs, emit=0, simlen=0, view=True, constraint=None, extra=""):
     s = "CONSTANTS\n  NObj = %d\n  Ops <- %s\n  Caps <- %s\n  Variant <- %s\n  DtorMenu <- %s\n" % (nobj, ops, caps, variant, menu)
-    s += "  EmitCover = %d\n  SimLen = %d\n  EmitOut = %d\n" % (emit, simlen, 1 if "EMITOUT" in extra else 0)
-    extra = extra.replace("EMITOUT", "")
+    s += "  EmitCover = %d\n  SimLen = %d\n  EmitOut = %d\n  TrackStd = %d\n" % (
+        emit, simlen, 1 if "EMITOUT" in extra else 0, 1 if "TRACKSTD" in extra else 0)
+    extra = extra.replace("EMITOUT", "").replace("TRACKSTD", "")
     s += "INIT MCInit\nNEXT MCNext\nCHECK_DEADLOCK FALSE\n"
     if view:
         s += "VIEW View\n"
@@ -375,6 +379,15 @@ FAMILIES["order"] = dict(
                   sim=[dict(nobj=3, caps="Caps3", num=2000, simlen=40), dict(nobj=4, caps="Caps3", num=2000, simlen=50),
                        dict(nobj=5, caps="Caps3", num=1000, simlen=60)]))
 
+FAMILIES["std"] = dict(
+    ops="OpsStd", menu="MenuPlain", profile="std", track_std=True, env={"HARNESS_STD": "1"},
+    invs=["MC_C07", "MC_C01", "MC_C02", "MC_C04", "MC_C05", "MC_C06"],
+    quick=dict(mc=[dict(nobj=2, caps="CapsQ", ops="OpsStdQ")],
+               sim=[dict(nobj=3, caps="Caps3", num=500, simlen=30, ops="OpsStdM"), dict(nobj=4, caps="Caps3", num=300, simlen=40, ops="OpsStdM")]),
+    thorough=dict(mc=[dict(nobj=2, caps="CapsM"), dict(nobj=3, caps="CapsQ", ops="OpsStdQ")],
+                  sim=[dict(nobj=3, caps="Caps3", num=6000, simlen=40, ops="OpsStdM"), dict(nobj=4, caps="Caps3", num=4000, simlen=50, ops="OpsStdM"),
+                       dict(nobj=5, caps="Caps3", num=2000, simlen=60, ops="OpsStdM")]))
+
 TIERS = {
     "quick": dict(drive=dict(scripts=240, length=60, nobj=5), chunks=6, mc_timeout=900),
     "thorough": dict(drive=dict(scripts=4000, length=150, nobj=7), chunks=14, mc_timeout=7200),
@@ -388,6 +401,7 @@ PROPS = {
     "C05": dict(fams=["weak", "dtor05", "consume"], monitor=["C05"], level="model_checking"),
     "C06": dict(fams=["core", "stale"], monitor=["C06"], level="model_checking"),
     "C08": dict(fams=["core", "stale"], monitor=["C08"], level="model_checking"),
+    "C07": dict(fams=["std"], monitor=["C07"], level="translation_validation"),
     "C09": dict(fams=["order"], monitor=["C09"], layouts=dict(quick=4, thorough=16), level="model_checking"),
     "C10": dict(fams=["dtor10"], monitor=["C10"], level="model_checking"),
     "C11": dict(fams=["panic"], monitor=["C11"], level="model_checking"),
@@ -424,6 +438,9 @@ def run_check(prop, tier, seed, replay):
     os.makedirs(REPLAYS, exist_ok=True)
     os.makedirs(EVID, exist_ok=True)
     binp = build_harness()
+    HARNESS_ENV.clear()
+    for fam in P["fams"]:
+        HARNESS_ENV.update(FAMILIES[fam].get("env", {}))
 
     script_files = []   # (label, path, nobj)
     spec_stats = []
@@ -439,7 +456,8 @@ def run_check(prop, tier, seed, replay):
             for i, c in enumerate(FT["mc"]):
                 ops = c.get("ops", F["ops"])
                 menu = c.get("menu", F["menu"])
-                cfg = mc_cfg(c["nobj"], ops, c["caps"], VARIANT, menu, F["invs"], extra="EMITOUT" if F.get("emit_out") else "")
+                cfg = mc_cfg(c["nobj"], ops, c["caps"], VARIANT, menu, F["invs"],
+                             extra=("EMITOUT" if F.get("emit_out") else "") + ("TRACKSTD" if F.get("track_std") else ""))
                 st = tlc_exhaustive("%s_%s_%d" % (fam, tier, i), cfg, T["mc_timeout"], workers=min(12, NCPU))
                 if F.get("emit_out"):
                     op_ = st.get("order_pass")
@@ -480,7 +498,7 @@ def run_check(prop, tier, seed, replay):
                              simlen=c["simlen"], view=False, constraint="SimStop")
                 scr, info = tlc_simulate("%s_%s_%d" % (fam, tier, i), cfg, c["num"], 40 * c["simlen"], seed, 1800)
                 log("spec: %s simulation nobj=%d: %d scripts of %d calls" % (fam, c["nobj"], info["scripts"], c["simlen"]))
-                script_files.append(("tlc-sim-%s-%d" % (fam, c["nobj"]), scr, c["nobj"] + (1 if fam == "consume" else 0)))
+                script_files.append(("tlc-sim-%s-%d" % (fam, c["nobj"]), scr, c["nobj"]))
             # 3. random histories generated by the harness itself (implementation -> specification)
             dv = T["drive"]
             k = max(1, T["chunks"] // len(P["fams"]))
@@ -533,8 +551,10 @@ def run_check(prop, tier, seed, replay):
                 rc, out, dt = harness(binp, ["replay", sp, tp] + ([str(P["layouts"][tier])] if P.get("layouts") else []))
                 if rc == 0:
                     break
-                if rc > 0:
+                if rc > 0 and rc != 101:
                     raise ToolError("harness failed replaying %s (rc=%s): %s" % (sp, rc, (out or "")[-500:]))
+                if rc == 101:
+                    rc = -101     # a Rust panic escaped the harness: the library broke it
                 # the process was killed by a signal inside the library: that is data.  The
                 # script that crashed is the first one that is missing from the trace file.
                 done = 0
@@ -739,8 +759,8 @@ def run_check(prop, tier, seed, replay):
 
 
 SCALE_SHAPES = {
-    "quick": ["ring:1000", "ring:20000", "ring:100000", "ring:300000", "chords:100000", "wheel:20000", "clique:300"],
-    "thorough": ["ring:1000", "ring:20000", "ring:300000", "ring:1000000", "chords:500000", "wheel:20000", "wheel:100000",
+    "quick": ["ring:1000", "ring:100000", "ring:300000", "chords:100000", "wheel:5000", "wheel:60000", "clique:300"],
+    "thorough": ["ring:1000", "ring:300000", "ring:1000000", "chords:500000", "wheel:5000", "wheel:60000", "wheel:200000",
                  "clique:300", "clique:1000"],
 }
 
@@ -759,16 +779,18 @@ def run_scale(binp, wd, tier):
             shp, n = shape.split(":")
             got.append(dict(k="scale_died", shape=shp, n=int(n), sig=-rc))
         lines.extend(got)
-    # per-adoption CPU time relative to the 20000-ring of the same run (x10, integer)
-    base = [g for g in lines if g["k"] == "scale" and g["shape"] == "ring" and g["n"] == 20000]
+    # linearity as a self-scaling ratio: CPU time per adoption of the 60000-wheel (one hub with a
+    # very wide fan-out, worklist of 6*10^4 entries) relative to the 5000-wheel of the same run
+    # (x10, integer).  Measured here: about 1.3-1.6 on the unchanged tree, about 8 with a
+    # quadratic worklist; the bound in ScaleCheck.tla is 4.
+    base = [g for g in lines if g["k"] == "scale" and g["shape"] == "wheel" and g["n"] == 5000]
     for g in lines:
         if g["k"] == "scale":
-            if base and base[0]["cpu_us"] > 0 and g["links"] > 0:
+            g["ratio_x10"] = 10
+            if base and base[0]["cpu_us"] > 0 and g["links"] > 0 and g["shape"] == "wheel" and g["n"] == 60000:
                 per = g["cpu_us"] / g["links"]
                 per0 = base[0]["cpu_us"] / base[0]["links"]
-                g["ratio_x10"] = int(10 * per / per0) if g["n"] >= 20000 and g["shape"] in ("wheel", "clique") else 10
-            else:
-                g["ratio_x10"] = 10
+                g["ratio_x10"] = int(10 * per / per0)
     with open(outp, "w") as f:
         for g in lines:
             f.write(json.dumps(g) + "\n")
